@@ -3,6 +3,7 @@
 -/
 import Lean.Data.Json
 import SqlairModel.Spec.L2
+import SqlairModel.Spec.L2Tokens
 import SqlairProofs.NoPanic.Defs
 import SqlairProofs.L2Sound.C03ValsGuard
 import Driver.Json
@@ -163,10 +164,13 @@ def handleL2 (j : Json) : Except String Json := do
        ("agree", Json.bool aff.isEmpty),
        ("affects", Json.arr (aff.map Json.str).toArray),
        ("c01", Json.bool (holdsC01e2e q segs o && holdsC01exact segs o)),
-       ("c03", Json.bool ((!tagsClean tt || holdsC03 segs o) && (!c03valsGuards C tt segs args || holdsC03vals C tt segs args o) && holdsC03present args o && inputsCounted && !lost.contains "C03" && !dupLost)),
+       ("c03", Json.bool ((!tokensGuards tt segs || holdsC03 segs o) && (!c03valsGuards C tt segs args || holdsC03vals C tt segs args o) && holdsC03present args o && inputsCounted && !lost.contains "C03" && !dupLost)),
        ("c02", Json.bool (literalsVerbatim segs o && callsVerbatim)),
        ("c04", Json.bool (holdsC04rej m o && literalsVerbatim segs o && (!c04rowsGuards tt segs || holdsC04rows C tt segs args o) && !lost.contains "C04")),
-       ("c05", Json.bool ((!tagsClean tt || holdsC05 segs o) && !lost.contains "C05")),
+       -- (token predicates under `tokensGuards`: the witnesses of `Props/L2Tokens.lean` show they are
+       -- false of the model without it; the mode half needs typed output nodes only)
+       ("c05", Json.bool ((!tokensGuards tt segs || holdsC05 segs o) &&
+          (!(o.prepOk && o.bindOk) || o.mode == "none" || !outputsTyped segs || holdsC05mode segs o) && !lost.contains "C05")),
        ("c07", Json.bool (holdsC07 m o && !wrongReject)),
        ("c08", Json.bool (holdsC08 m o))])
 
